@@ -253,25 +253,34 @@ func vfGenAllocOp(t *rapid.T, r *vfAllocRun) *vfAllocOp {
 func vfRunAllocCase(c *vfAllocCase, next func(r *vfAllocRun) *vfAllocOp) (r *vfAllocRun, sig, msg string) {
 	r = &vfAllocRun{c: c}
 	defer func() {
-		if p := recover(); p != nil {
-			sig, msg = "C12/panic", fmt.Sprintf("panic: %v", p)
-		}
 		if r.a != nil {
 			r.a.Release()
 		}
 	}()
-	r.a = NewAllocator(c.InitSize, "vf")
+	// only the code under test runs under recover: the generator's own panics (rapid signals an
+	// exhausted bit stream that way while shrinking) must pass through
+	guarded := func(f func() (string, string)) (s, m string) {
+		defer func() {
+			if p := recover(); p != nil {
+				s, m = "C12/panic", fmt.Sprintf("panic: %v", p)
+			}
+		}()
+		return f()
+	}
+	if s, m := guarded(func() (string, string) { r.a = NewAllocator(c.InitSize, "vf"); return "", "" }); s != "" {
+		return r, s, m
+	}
 	for {
 		op := next(r)
 		if op == nil {
 			break
 		}
 		r.executed++
-		if s, m := r.apply(op); s != "" {
+		if s, m := guarded(func() (string, string) { return r.apply(op) }); s != "" {
 			return r, s, m
 		}
 	}
-	if s, m := vfVerifyLive(r.live); s != "" {
+	if s, m := guarded(func() (string, string) { return vfVerifyLive(r.live) }); s != "" {
 		return r, s, "at the end: " + m
 	}
 	return r, "", ""
